@@ -179,7 +179,7 @@ def gen_level(G, n, tier, scale=1.0, heavy=True):
         # the high levels see a thinner corner set in the quick tier (thorough: all of it)
         C = C[:10] + rng.sample(C[10:-4], 10) + C[-4:]
     # cheap ops see every corner; product-bound ops a sample whose size follows the level cost
-    nprod = cnt(min(len(C) * 3, (60000 if quick else 600000) // unit), 10)
+    nprod = cnt(min(len(C) * 3, (60000 if quick else 250000) // unit), 10)
 
     def sample_pairs(m):
         prs = [(C[0], C[0]), (C[0], C[-4]), (C[1], C[-4]), (C[-4], C[1]), (C[5], C[5]), (C[-4], C[-4])]
@@ -391,7 +391,7 @@ def gen_level(G, n, tier, scale=1.0, heavy=True):
         G.line(op("exp_cyc_sps"), 0, C[1], 0, 3, 0, 3, 9)
     # ---------------------------------------------------------------- squares and roots
     if has("srt") and heavy:
-        nsq = cnt({2: 12, 3: 6, 4: 3, 8: 1, 16: 1}.get(n, 1) * (1 if quick else 4), 1)
+        nsq = cnt({2: 12, 3: 6, 4: 3, 8: 1, 16: 1}.get(n, 1) * (1 if quick else 2), 1)
         ins = [C[0], C[1], C[2], C[3]] + ["s:" + G.nonzero(n) for _ in range(nsq)] + [G.rtok(n) for _ in range(nsq)]
         if unit <= 60:
             ins += C[7:] if not quick else rng.sample(C[7:], 8)
